@@ -287,6 +287,11 @@ def e2e_cases(draw, profile):
         'end': draw(ends(profile)),
         'sched': draw(schedules()),
     }
+    if profile.get('lines') and draw(st.integers(0, 3)) == 0:
+        # line-granularity preemption: the n-th executed source line of
+        # s3transfer/*.py becomes a (forced) scheduling point
+        case['lines'] = draw(st.lists(st.integers(0, 2500), min_size=1,
+                                      max_size=3))
     if profile.get('shared_extra') and draw(st.booleans()):
         case['shared_extra'] = True
     if profile.get('agg'):
